@@ -2,9 +2,13 @@
 
    Modelled code (pinned /repo):
      c/tskit/convert.c           tsk_newick_converter_run   (l.52-152)  -> [c_newick]
-     python/tskit/trees.py       Tree._as_newick_fast       (l.2603-2618) -> [estimate], [as_newick_fast]
+     python/tskit/trees.py       Tree._as_newick_fast       -> [estimate], [as_newick_fast]
+                                 (as repaired by fix 1e12f75; the pre-fix formula is kept as
+                                 [estimate_pinned] for the historical record of F5)
                                  Tree.as_newick             (l.2688-2729) -> [as_newick]
-     python/tskit/text_formats.py  _build_newick/build_newick (l.218-252) -> [py_build], [py_newick]
+     python/tskit/text_formats.py  build_newick (iterative over the post-order, fix d25c4f6)
+                                   -> [it_newick];  the recursive writer it replaced is kept as
+                                   the specification [py_build]/[py_newick] (IterProofs.v: equal)
                                  wrap_text (l.175-188)      -> [wrap_text]
                                  write_fasta (l.192-215)    -> [fasta_text]
                                  write_nexus (l.113-172)    -> [nexus_lines]
@@ -336,34 +340,87 @@ Section Writers.
     do out <- crun (2 * length (ct_par a) + 2) a ms prec B rp ([root], rp, []);
     if zlen out + 1 >=? B then ovf else Ok (out ++ [59]).
 
-  (* ---------------- Tree._as_newick_fast (trees.py l.2603-2618) ---------------- *)
-  (* T = math.ceil(math.log10(max(1, self.time(root)))): float log10, passed in *)
-  Definition estimate (N T prec : Z) : Z :=
-    c18_estimate_extra + (c18_estimate_per_node + clog10 N + T + prec) * N.
+  (* ---------------- text_formats.build_newick (iterative, fix d25c4f6) ---------------- *)
+  (* for node in tree.nodes(root, order="postorder"): the subtrees, children before parents *)
+  Fixpoint post_nodes (t : rtree) : list rtree :=
+    match t with RN v kids => flat_map post_nodes kids ++ [t] end.
 
-  Definition as_newick_fast (a : ctree) (N root : Z) (ms : bool) (prec T : Z) : res str :=
-    c_newick a N root ms prec (estimate N T prec).
+  (* subtrees.pop(child): first binding of the key, removed; None = KeyError *)
+  Fixpoint dpop (d : list (Z * str)) (k : Z) : option (str * list (Z * str)) :=
+    match d with
+    | [] => None
+    | (k', s) :: r =>
+        if k' =? k then Some (s, r) else
+        match dpop r k with Some (x, r') => Some (x, (k', s) :: r') | None => None end
+    end.
 
-  (* ---------------- Tree.as_newick path choice (trees.py l.2702-2729) ---------------- *)
-  Definition lab_fn (a : ctree) (whole_leaves : list Z) (l : labspec) : Z -> str :=
+  Definition key_error {A} : res A := Err 2.
+
+  (* the inner loop over tree.children(node): parts and the dictionary after the pops *)
+  Fixpoint pop_parts (ibl : bool) (prec v : Z) (d : list (Z * str)) (kids : list rtree)
+    : res (list str * list (Z * str)) :=
+    match kids with
+    | [] => Ok ([], d)
+    | k :: ks =>
+        match dpop d (rid k) with
+        | None => key_error
+        | Some (sub, d') =>
+            do r <- pop_parts ibl prec v d' ks;
+            Ok ((sub ++ (if ibl then 58 :: btoken prec v (rid k) else [])) :: fst r, snd r)
+        end
+    end.
+
+  Definition it_step (lab : Z -> str) (ibl : bool) (prec : Z) (d : list (Z * str)) (node : rtree)
+    : res (list (Z * str)) :=
+    match node with
+    | RN v [] => Ok ((v, lab v) :: d)                       (* is_leaf: s = f"{label}" *)
+    | RN v kids =>
+        do r <- pop_parts ibl prec v d kids;
+        Ok ((v, 40 :: join 44 (fst r) ++ 41 :: lab v) :: snd r)   (* "(" + ",".join(parts) + f"){label}" *)
+    end.
+
+  Fixpoint it_run (lab : Z -> str) (ibl : bool) (prec : Z) (nodes : list rtree) (d : list (Z * str))
+    : res (list (Z * str)) :=
+    match nodes with
+    | [] => Ok d
+    | n :: r => do d' <- it_step lab ibl prec d n; it_run lab ibl prec r d'
+    end.
+
+  Definition it_newick (lab : Z -> str) (ibl : bool) (prec : Z) (t : rtree) : res str :=
+    do d <- it_run lab ibl prec (post_nodes t) [];
+    match lookup d (rid t) with Some s => Ok (s ++ [59]) | None => key_error end.
+
+  (* ---------------- Tree._as_newick_fast (trees.py, fix 1e12f75) ---------------- *)
+  (* W = len(f"{max_branch:.{precision}f}"), max_branch = time(root) - nodes_time.min():
+     float rendering, passed in.  max_label_size = len(str(num_nodes)) = |dec N|. *)
+  Definition estimate (N W : Z) : Z :=
+    c18_estimate_extra + (c18_estimate_per_node + zlen (dec N) + W) * N.
+
+  Definition as_newick_fast (a : ctree) (N root : Z) (ms : bool) (prec W : Z) : res str :=
+    c_newick a N root ms prec (estimate N W).
+
+  (* ---------------- Tree.as_newick path choice and label dictionaries ---------------- *)
+  (* node_labels.get(u, ""): None -> {u: f"n{u}" for samples}; LEGACY_MS_LABELS ->
+     {u: f"{u+1}" for u in self.leaves(root)} (fix dad8003) *)
+  Definition lab_fn (a : ctree) (t : rtree) (l : labspec) : Z -> str :=
     match l with
     | LabDefault => lab_default a
-    | LabMs => lab_ms_of whole_leaves
+    | LabMs => lab_ms_of (leaf_ids t)
     | LabDict d => lab_dict d
     end.
 
-  Definition as_newick (a : ctree) (N : Z) (t : rtree) (whole_leaves : list Z)
-             (l : labspec) (ibl : bool) (prec T : Z) : res str :=
+  Definition as_newick (a : ctree) (N : Z) (t : rtree)
+             (l : labspec) (ibl : bool) (prec W : Z) : res str :=
     match ibl, l with
-    | true, LabDefault => as_newick_fast a N (rid t) false prec T
-    | true, LabMs => as_newick_fast a N (rid t) true prec T
-    | _, _ => Ok (py_newick (lab_fn a whole_leaves l) ibl prec t)
+    | true, LabDefault => as_newick_fast a N (rid t) false prec W
+    | true, LabMs => as_newick_fast a N (rid t) true prec W
+    | _, _ => it_newick (lab_fn a t l) ibl prec t
     end.
 End Writers.
 
-(* proposed repair of the estimate: L = len(str(num_nodes)), W = len of the longest branch
-   token ("%.*f" of root time - minimal node time) *)
-Definition estimate_repaired (N L W : Z) : Z := 1 + (4 + L + W) * N.
+(* the buffer-size formula of Tree._as_newick_fast BEFORE fix 1e12f75 (finding F5):
+   1 + (5 + ceil(log10 N) + ceil(log10(max(1, root_time))) + precision) * N *)
+Definition estimate_pinned (N T prec : Z) : Z := 1 + (5 + clog10 N + T + prec) * N.
 
 (* ------------------------------------------------------------------ *)
 (* wrap_text, FASTA, nexus                                              *)
@@ -488,8 +545,8 @@ Definition read_nexus_trees (lines : list str) : list ((str * str) * str) :=
 (* ------------------------------------------------------------------ *)
 Definition fx_tm (times : list Z) (v : Z) : Z := match get times v with Ok x => x | _ => 0 end.
 Definition cdiv (x y : Z) : Z := (x + y - 1) / y.
-(* math.ceil(math.log10(max(1, root_time))) for root_time = x / 10^q *)
-Definition fx_T (q x : Z) : Z := clog10 (Z.max c18_estimate_root_time_floor (cdiv x (10 ^ q))).
+(* math.ceil(math.log10(max(1, root_time))) for root_time = x / 10^q (pre-fix formula only) *)
+Definition fx_T (q x : Z) : Z := clog10 (Z.max 1 (cdiv x (10 ^ q))).
 Definition list_min (l : list Z) : Z :=
   match l with [] => 0 | x :: r => fold_left Z.min r x end.
 
@@ -516,33 +573,28 @@ Definition res_str_eqb (r : res str) (s : str) : bool :=
 Definition res_is_err (r : res str) (c : Z) : bool :=
   match r with Err x => x =? c | _ => false end.
 
-(* which buffer-size formula the implementation has (detected by the harness from the source
-   of Tree._as_newick_fast): 1 = as pinned, 2 = the proposed repair, 0 = unrecognised *)
-Definition c18_check_estimate (shape N T prec W B : Z) : bool :=
-  if shape =? 1 then estimate N T prec =? B
-  else if shape =? 2 then estimate_repaired N (zlen (dec N)) W =? B
-  else true.
-
 (* what Tree.as_newick itself returned *)
 Inductive out_obs : Type := OutStr (s : str) | OutOverflow | OutSkip.
 
+Definition res_eq_obs (r : res str) (o : out_obs) : bool :=
+  match o with
+  | OutStr s => res_str_eqb r s
+  | OutOverflow => res_is_err r c18_err_buffer_overflow
+  | OutSkip => true
+  end.
+
 Definition c18_check_newick (a : ctree) (N : Z) (t : rtree) (rp : Z)
-           (toks : list ((Z * Z) * str)) (l : labspec) (ibl : bool) (prec T : Z)
-           (fast : option fast_obs) (general : str) (shape W : Z)
-           (whole_leaves : list Z) (out : out_obs) : bool :=
+           (toks : list ((Z * Z) * str)) (l : labspec) (ibl : bool) (prec : Z)
+           (fast : option fast_obs) (general : str) (W : Z) (out : out_obs) : bool :=
   let pn := tok_print toks in
-  (* path choice of Tree.as_newick (pinned formula only) *)
-  (if shape =? 1 then
-     match out with
-     | OutStr s => res_str_eqb (as_newick _ tok_sub pn tok_tm a N t whole_leaves l ibl prec T) s
-     | OutOverflow => res_is_err (as_newick _ tok_sub pn tok_tm a N t whole_leaves l ibl prec T)
-                                 c18_err_buffer_overflow
-     | OutSkip => true
-     end
-   else true) &&
-  let lab := match l with LabMs => lab_ms_of (leaf_ids t) | _ => lab_fn a [] l end in
+  let lab := lab_fn a t l in
   let ms := match l with LabMs => true | _ => false end in
+  (* Tree.as_newick: path choice, label dictionaries, buffer estimate *)
+  res_eq_obs (as_newick _ tok_sub pn tok_tm a N t l ibl prec W) out &&
   repb a rp t && nodupb (ids t) && negb (memb rp (ids t)) &&
+  (* text_formats.build_newick (iterative) *)
+  res_str_eqb (it_newick _ tok_sub pn tok_tm lab ibl prec t) general &&
+  (* ... equals the recursive specification, and parses back *)
   str_eqb (py_newick _ tok_sub pn tok_tm lab ibl prec t) general &&
   (match parse_newick general with
    | Ok x => nw_eqb x (ast_of _ tok_sub pn tok_tm lab ibl prec None t)
@@ -551,38 +603,34 @@ Definition c18_check_newick (a : ctree) (N : Z) (t : rtree) (rp : Z)
   (match fast with
    | None => true
    | Some (FastOk B s) =>
-       res_str_eqb (c_newick _ tok_sub pn tok_tm a N (rid t) ms prec B) s &&
-       c18_check_estimate shape N T prec W B
+       res_str_eqb (c_newick _ tok_sub pn tok_tm a N (rid t) ms prec B) s && (estimate N W =? B)
    | Some (FastOverflow B) =>
        res_is_err (c_newick _ tok_sub pn tok_tm a N (rid t) ms prec B) c18_err_buffer_overflow &&
-       c18_check_estimate shape N T prec W B
+       (estimate N W =? B)
    end).
 
 Definition c18_check_exact (a : ctree) (N : Z) (t : rtree) (rp : Z) (times : list Z)
            (l : labspec) (ibl : bool) (prec : Z)
-           (fast : option fast_obs) (general : str) (shape W : Z) : bool :=
+           (fast : option fast_obs) (general : str) (W : Z) (out : out_obs) : bool :=
   let tmf := fx_tm times in
-  let lab := match l with LabMs => lab_ms_of (leaf_ids t) | _ => lab_fn a [] l end in
+  let lab := lab_fn a t l in
   let ms := match l with LabMs => true | _ => false end in
-  let T := fx_T prec (tmf (rid t)) in
+  let W' := zlen (print_fixed prec (tmf (rid t) - list_min times)) in
+  (W' =? W) &&
+  res_eq_obs (as_newick Z Z.sub print_fixed tmf a N t l ibl prec W') out &&
   repb a rp t && nodupb (ids t) && negb (memb rp (ids t)) &&
-  str_eqb (py_newick Z Z.sub print_fixed tmf lab ibl prec t) general &&
+  res_str_eqb (it_newick Z Z.sub print_fixed tmf lab ibl prec t) general &&
   (match fast with
    | None => true
    | Some (FastOk B s) =>
-       res_str_eqb (c_newick Z Z.sub print_fixed tmf a N (rid t) ms prec B) s &&
-       c18_check_estimate shape N T prec W B &&
-       (zlen (print_fixed prec (tmf (rid t) - list_min times)) =? W)
+       res_str_eqb (c_newick Z Z.sub print_fixed tmf a N (rid t) ms prec B) s && (estimate N W' =? B)
    | Some (FastOverflow B) =>
        res_is_err (c_newick Z Z.sub print_fixed tmf a N (rid t) ms prec B) c18_err_buffer_overflow &&
-       c18_check_estimate shape N T prec W B &&
-       (zlen (print_fixed prec (tmf (rid t) - list_min times)) =? W)
+       (estimate N W' =? B)
    end).
 
-(* buffer size alone, for node counts beyond what the string checks can carry; rt = the
-   (integer) root time *)
-Definition c18_check_bufsize (shape N rt prec W B : Z) : bool :=
-  c18_check_estimate shape N (fx_T 0 rt) prec W B.
+(* buffer size alone, for node counts beyond what the string checks can carry *)
+Definition c18_check_bufsize (N W B : Z) : bool := estimate N W =? B.
 
 Definition c18_check_wrap (s : str) (w : Z) (obs : option (list str)) : bool :=
   match wrap_text s w, obs with
